@@ -1,6 +1,7 @@
 # Shared machinery for /verif checks: build, TLC runs, dot-graph parsing, graph tables,
 # evidence files, known-findings policy.  stdlib only.
-import json, os, re, shutil, subprocess, sys, time, hashlib
+import json, os, re, shutil, subprocess, sys, time, hashlib, threading
+from concurrent.futures import ThreadPoolExecutor
 
 VERIF = os.path.dirname(os.path.dirname(os.path.abspath(__file__)))
 REPO = os.environ.get("VP_REPO", "/repo")
@@ -42,7 +43,7 @@ def sh(cmd, timeout=600, cwd=None, env=None, check=False, stdin=None):
 
 
 def rundir(tag):
-    d = os.path.join(RUN, "%s.%d" % (tag, os.getpid()))
+    d = os.path.join(RUN, "%s.%d.%d" % (tag, os.getpid(), threading.get_ident() % 100000))
     shutil.rmtree(d, ignore_errors=True)
     os.makedirs(d, exist_ok=True)
     return d
@@ -421,8 +422,10 @@ class Result:
         self.rule = ""
         self.known = load_findings().get(prop, [])
         self.known_hit = {}
+        self.lock = threading.RLock()
 
     def add_tlc(self, res, what):
+      with self.lock:
         self.states += res["distinct"]
         self.transitions += res["generated"]
         self.cmds.append(res["cmd"])
@@ -431,6 +434,7 @@ class Result:
              "wall_s": round(res["wall"], 1)})
 
     def mismatch(self, sig, replay, text=""):
+      with self.lock:
         for ksig, ktext in self.known:
             if sig == ksig or (ksig.endswith("*") and sig.startswith(ksig[:-1])):
                 self.known_hit.setdefault(ksig, [ktext, 0])
@@ -466,6 +470,28 @@ class Result:
             print("VIOLATION property=%s replay=%s  (%s %s)" % (self.prop, replay, sig, text))
         sys.stdout.flush()
         return EXIT_VIOLATION if viol else EXIT_OK
+
+
+def parallel(tasks, max_workers=4):
+    """Run zero-arg callables concurrently; re-raise the first exception (Broken wins)."""
+    if not tasks:
+        return []
+    with ThreadPoolExecutor(max_workers=max_workers) as ex:
+        futs = [ex.submit(t) for t in tasks]
+        res, err = [], None
+        for f in futs:
+            try:
+                res.append(f.result())
+            except Exception as e:      # noqa
+                err = err or e
+                res.append(None)
+        if err:
+            raise err
+        return res
+
+
+_rd_lock = threading.Lock()
+_rd_n = [0]
 
 
 def replay_path(prop, tag):
